@@ -15,12 +15,19 @@ def make(tier, seed):
               "middle and last position; random: pop-on programs of 1-6 captions x 1-4 rows (adjacent and non-adjacent) x 1-30 items (basic pairs, special, "
               "stand-in+extended, backspace, mid-row codes, italic PACs), single or doubled; reference reading computed from CEA-608 rules with tables built "
               "from the standard's formulas; distinct = distinct SCC text; non-trivial = more than one row or a non-basic item")
-    c.predicates = {"row_starts_with_backspace_or_extended": pred_bs_first, "tracker_leak_adjacent_caption": pred_leak}
+    c.predicates = {"row_starts_with_backspace_or_extended": pred_bs_first, "tracker_leak_adjacent_caption": pred_leak,
+                    "mid_row_cell_erased_after_later_characters": pred_late_erase}
     return c
 
 
 def pred_bs_first(case):
     return bool(case.get("feature_bs_first"))
+
+
+def pred_late_erase(case):
+    """every caption that differs from the screen has a row on which a backspace erases a mid-row code's cell only after
+    characters written behind it were erased; and only characters differ (same number of captions, same positions)"""
+    return bool(case.get("late_erase_explains"))
 
 
 def pred_leak(case):
@@ -100,6 +107,8 @@ def explore(chk):
             for c in I[1]:
                 got.append((c[3], [sccgen.nonblank(l) for l in c[2]]))
             ok = len(exp) == len(got)
+            late = [g["late_erase"] for groups in S for g in groups]
+            differing = [i for i, ((_, lines), (_, glines)) in enumerate(zip(exp, got)) if glines != lines] if ok else []
             why = "caption count differs from the screen's row groups (adjacent rows = one caption, non-adjacent rows = separate captions)"
             detail = None
             if ok:
@@ -115,6 +124,8 @@ def explore(chk):
             if ok and any(not sccgen.balanced(c[4]) for c in I[1]):
                 ok = False; why = "italic style nodes are not balanced"
             if not ok:
+                if why.startswith("characters") and differing and all(late[i] for i in differing):
+                    case["late_erase_explains"] = True
                 chk.property_failure(dict(case, detail=detail, impl=str([(c[3] and (float(c[3][0]), float(c[3][1])), ["".join(ch for ch, _ in l) for l in c[2]]) for c in I[1]])[:1500],
                                           spec=str(S)[:1500]), why)
         elif wf and I[0] == "err" and I[1] not in ("timingError", "lineLength"):
